@@ -393,7 +393,15 @@ func (r *Runner) stmtSync(ctx context.Context, st *syntax.Stmt) {
 		}
 	}
 	if r.exit.ok() && st.Cmd != nil {
-		r.cmd(ctx, st.Cmd)
+		if st.Negated {
+			// errexit and the ERR trap are ignored in everything run under "!".
+			oldNoErrExit := r.noErrExit
+			r.noErrExit = true
+			r.cmd(ctx, st.Cmd)
+			r.noErrExit = oldNoErrExit
+		} else {
+			r.cmd(ctx, st.Cmd)
+		}
 	}
 	if st.Negated {
 		if r.exit.ok() {
